@@ -342,10 +342,10 @@ def main(tier):
         if r["outcome"] == "violation":
             cx = r["cex"]
             detail = f"{label}: {cx['what']}"
-            kf = next((k for k in known if cx.get("all_problems") and all(
-                all(x in pr_ for x in k.get("problem_contains", ["\0"])) for pr_ in cx["all_problems"])), None)
-            if kf is not None:
-                rep.known(kf, 1)
+            kfs = runner.attribute_problems(known, cx.get("all_problems") or [])
+            if kfs is not None:
+                for kf in kfs:
+                    rep.known(kf, 1)
             else:
                 rep.violation(detail, {"property": "C05", "kind": "c05", "task": t, "cex": cx})
         elif r["outcome"] == "inconclusive":
